@@ -36,7 +36,7 @@ def allFixed : Fixes := ⟨true, true, true⟩
 def normFixed : Fixes := ⟨true, true, false⟩
 /-- THE line to flip when a fix lands in /repo: `normFixed` = /repo as it is now; `allFixed` once
 `fixes/wcsfc-multichar-room-check.diff` is applied -/
-def current : Fixes := normFixed
+def current : Fixes := allFixed
 
 /-- cell `i` of a packed array of `w`-bit cells -/
 def cell (w data i : Nat) : Nat := (data >>> (w * i)) % 2 ^ w
